@@ -24,6 +24,17 @@ def _last_index(sub: ast.Subscript):
     return elts[-1]
 
 
+TORCH_DISTRIBUTIONS = ('Gamma', 'Normal', 'LogNormal', 'Exponential', 'Beta', 'Cauchy', 'HalfCauchy', 'HalfNormal', 'Laplace', 'Weibull', 'Poisson', 'InverseGamma', 'StudentT', 'Uniform',
+                       'Gumbel', 'Pareto', 'Chi2', 'FisherSnedecor', 'Kumaraswamy', 'LogisticNormal', 'Bernoulli', 'Geometric', 'NegativeBinomial', 'Binomial')
+
+
+def _is_distribution_ctor(c) -> bool:
+    """torch.distributions.Gamma(...), distributions.Normal(...), Gamma(...): a univariate torch distribution (its parameters broadcast element-wise against the value)"""
+    from .loader import dotted_name
+    dn = dotted_name(c.func) or ''
+    return dn.split('.')[-1] in TORCH_DISTRIBUTIONS and (dn.count('.') == 0 or 'distributions' in dn)
+
+
 class Axes:
     def __init__(self, fn: ast.FunctionDef, height_params=('node_heights', 'x', 'heights', 'value')):
         self.fn = fn
@@ -125,6 +136,28 @@ class Axes:
         if isinstance(e, ast.Call) and isinstance(e.func, ast.Attribute) and isinstance(e.func.value, ast.Name) and e.func.value.id == 'self' and self._depth < 3:
             r = self.call_method(e, env)
             return r if isinstance(r, str) else None
+        # a torch distribution built from tensors and evaluated at a value is an element-wise combination of all of them:  Gamma(a, b).log_prob(x)
+        if isinstance(e, ast.Call) and isinstance(e.func, ast.Attribute) and e.func.attr in ('log_prob', 'cdf', 'icdf') and len(e.args) == 1:
+            ctor = e.func.value
+            if isinstance(ctor, ast.Name) and isinstance(env.get(ctor.id), tuple) and env[ctor.id][:1] == ('dist',):
+                arg_kinds = list(env[ctor.id][1])
+            elif isinstance(ctor, ast.Call) and _is_distribution_ctor(ctor):
+                arg_kinds = [self.kind(a, env) for a in ctor.args] + [self.kind(k.value, env) for k in ctor.keywords if k.arg not in ('validate_args',)]
+            else:
+                arg_kinds = None
+            if arg_kinds is not None:
+                kinds = [k for k in arg_kinds + [self.kind(e.args[0], env)] if k in (K, D)]
+                if len(kinds) >= 2 and id(e) not in self._counted:
+                    self._counted.add(id(e))
+                    self.decided += 1
+                if K in kinds and D in kinds:
+                    if id(e) not in self._seen:
+                        self._seen.add(id(e))
+                        self.reports.append((e, K, D))
+                    return None
+                return kinds[0] if kinds else None
+        if isinstance(e, ast.Call) and _is_distribution_ctor(e):
+            return ('dist', tuple([self.kind(a, env) for a in e.args] + [self.kind(k.value, env) for k in e.keywords if k.arg not in ('validate_args',)]))
         if isinstance(e, ast.Call) and isinstance(e.func, ast.Attribute):
             a = e.func.attr
             torch_fn = isinstance(e.func.value, ast.Name) and e.func.value.id == 'torch'
@@ -194,6 +227,8 @@ class Axes:
         for x in ast.walk(node):
             if isinstance(x, ast.BinOp):
                 self.kind(x, env)
+            elif isinstance(x, ast.Call) and isinstance(x.func, ast.Attribute) and x.func.attr in ('log_prob', 'cdf', 'icdf'):
+                self.kind(x, env)       # Dist(a, b).log_prob(v) combines a, b and v element-wise
 
     # -- statements ------------------------------------------------------
     def block(self, stmts, env: Dict[str, Optional[str]]) -> Dict[str, Optional[str]]:
